@@ -26,7 +26,11 @@ def _runs(inls):
     out = []
     for i in inls:
         if i[0] == "r":
-            out.append(f'<a:r><a:rPr lang="en-US"/><a:t>{escape(word(i[1]))}</a:t></a:r>')
+            w_ = word(i[1])
+            if i[1] % 3 == 0:        # one word split over two runs
+                out.append(f'<a:r><a:rPr lang="en-US"/><a:t>{w_[:4]}</a:t></a:r><a:r><a:rPr lang="en-US" b="1"/><a:t>{w_[4:]}</a:t></a:r>')
+            else:
+                out.append(f'<a:r><a:rPr lang="en-US"/><a:t>{escape(w_)}</a:t></a:r>')
         elif i[0] == "br":
             out.append("<a:br/>")
         elif i[0] == "a":
@@ -81,10 +85,13 @@ def write_pptx(deck: dict) -> bytes:
     files = {}
     prels = []
     sldids = ""
-    for n, s in enumerate(slides, start=1):
-        rid = f"rId{n}"
+    nslides = len(slides)
+    for logical, s in enumerate(slides, start=1):
+        # slide FILES are numbered in reverse: the order of a deck is given by p:sldIdLst + relationships only
+        n = nslides - logical + 1
+        rid = f"rId{logical}"
         prels.append((rid, f"{REL}/slide", f"slides/slide{n}.xml", False))
-        sldids += f'<p:sldId id="{255 + n}" r:id="{rid}"/>'
+        sldids += f'<p:sldId id="{255 + logical}" r:id="{rid}"/>'
         srels = [("rIdL", f"{REL}/slideLayout", "../slideLayouts/slideLayout1.xml", False)]
         shapes = ""
         k = 0
@@ -94,7 +101,7 @@ def write_pptx(deck: dict) -> bytes:
             k += 1
         # reading order is the visual (top-to-bottom) order given by the y offsets; on even slides the
         # XML order is reversed so that an extractor relying on XML order would be caught
-        shapes += "".join(parts if n % 2 else reversed(parts))
+        shapes += "".join(parts if logical % 2 else reversed(parts))
         for m, img in enumerate(s.get("images", []), start=1):
             irid = img.get("rid") or f"rIdI{m}"
             if not img.get("norel"):
@@ -114,8 +121,8 @@ def write_pptx(deck: dict) -> bytes:
                 [("rId1", f"{REL}/slide", f"../slides/slide{n}.xml", False)])
         if s.get("comments"):
             # legacy comment part ppt/comments/comment<n>.xml (one p:cm per token id)
-            srels.append(("rIdC", f"{REL}/comments", f"../comments/comment{n}.xml", False))
-            files[f"ppt/comments/comment{n}.xml"] = (
+            srels.append(("rIdC", f"{REL}/comments", f"../comments/comment{logical}.xml", False))
+            files[f"ppt/comments/comment{logical}.xml"] = (
                 f'<?xml version="1.0"?><p:cmLst {NS}>' + "".join(
                     f'<p:cm authorId="0" dt="2024-01-01T00:00:00.000" idx="{k}"><p:pos x="10" y="10"/>'
                     f'<p:text>{escape(word(t))}</p:text></p:cm>' for k, t in enumerate(s["comments"], start=1))
